@@ -27,7 +27,7 @@ REGISTRY = {
             "HashMap iteration order is unspecified: data emitted between two control elements is compared after a stable sort by key",
             "1 <= slide <= size (the property's range); size = 0 or slide = 0 panic in the implementation and are outside the claim",
         ],
-        "level_text": "Proof: the count-window manager and the keyed window operator are modelled in Gallina and the full statement (exact sliding groups, emission at the size-th element, end-of-round flush, no mixing of keys or rounds, arbitrary accumulator) is proved for all sizes, slides, inputs and accumulators; the model is tied to the code by running the real operator chain on scripted inputs (exhaustive small scope + random) and comparing inside Coq.",
+        "level_text": "Proof: the count-window manager and the keyed window operator are modelled in Gallina and the full statement (exact sliding groups, emission at the size-th element, end-of-round flush, no mixing of keys or rounds, arbitrary accumulator) is proved for all sizes, slides, inputs and accumulators; the model is tied to the code by running the real operator chain on scripted inputs (exhaustive small scope + random) and comparing inside Coq; a third of the random inputs also go through the window aggregators count, sum, max, min, first, last, fold_first and collect_vec+map, each of which must yield the aggregate of exactly the collected window.",
         "level_note": "Trusted: Coq kernel/vm_compute, the hand-written model (checked by correspondence, not generated), harness and orchestration; HashMap iteration order abstracted (outputs compared per key). No axioms.",
         "explanation": "Theorems C12_* (Props/C12.v) are proved for every size/slide/exact, every arrival sequence, every accumulator; the correspondence runs the real key_by+window(CountWindow)+fold chain single-threaded on scripted inputs and compares every returned element with the model, and evaluates the theorem's right-hand side directly on the implementation output.",
     },
